@@ -204,14 +204,18 @@ def sym_root_scalar(f, x0=None, x1=None, xtol=None, method=None, **kw):
     sx = _sx()
     e = sx.cur()
     k = len(CALLS)
-    f(e.fresh("root%d_pre" % k))
+    if MODE["adversarial"]:
+        f(e.fresh("root%d_pre" % k))
     q = e.fresh("root%d_q" % k)
+    i0 = len(CALLS)
     fq = f(q)  # probe: what function is being solved?
+    nested_q = list(CALLS[i0:])
     r = e.fresh("root%d_r" % k)
     fr = f(r)
     e.assume(fr == 0)
-    f(e.fresh("root%d_post" % k))
-    CALLS.append(dict(kind="root_scalar", x0=x0, x1=x1, q=q, fq=fq, root=r))
+    if MODE["adversarial"]:
+        f(e.fresh("root%d_post" % k))
+    CALLS.append(dict(kind="root_scalar", x0=x0, x1=x1, q=q, fq=fq, root=r, nested_q=nested_q))
     return types.SimpleNamespace(root=r, converged=True)
 
 
@@ -325,6 +329,12 @@ class SymMinuit:
             for j in range(i, n):
                 if not self.fixed[i] and not self.fixed[j]:
                     C[i][j] = C[j][i] = e.fresh("mn%d_C%d%d" % (k, i, j))
+        free = [i for i in range(n) if not self.fixed[i]]
+        from . import oracle as _O
+
+        # contract: the HESSE covariance of the free block is positive definite
+        for mn in _O.leading_minors([[C[i][j] for j in free] for i in free]) if free else []:
+            e.assume(mn > 0)
         for i in range(n):
             if not self.fixed[i]:
                 # contract: HESSE reproduces MIGRAD's final error estimate (they agree within the tolerance in iminuit)
